@@ -950,6 +950,166 @@ inline void prop_c07(const vf::Case& c, Ctx& ctx)
     ctx.nontrivial = (w.max_depth >= 2 && w.structural_on_nonleaf) || w.cycle_attempt;
 }
 
+// ------------------------------------------------------------------------------------------------------ C07 (bounded-exhaustive)
+// Every sequence of exactly L operations from a 42-letter alphabet over at most 4 crates and two colliding names, on three
+// representative schemas (1.6.0: Crate table; 1.18.0 OS: Crate view over List; 2.21.2). Invariants are checked after every
+// step, so all shorter sequences are covered as prefixes. Case number i is decoded in mixed radix.
+static const int C07_ALPHABET = 42;
+inline void apply_enum_op(World& w, Ctx& ctx, int d)
+{
+    auto lc = w.live_crates();
+    static const char* names[2] = {"A", "B"};
+    auto at = [&](int idx) -> CrateM* { return idx < static_cast<int>(lc.size()) ? &w.crates[lc[idx]] : nullptr; };
+    auto create = [&](CrateM* parent, const std::string& name) {
+        int64_t pid = parent ? parent->id : 0;
+        bool dup = w.sibling_name_exists(pid, name);
+        w.hist += std::string(" | create(") + (parent ? std::to_string(pid) : std::string("root")) + "," + name + ")";
+        try
+        {
+            dj::crate cr = parent ? parent->handle.create_sub_crate(name) : w.db.create_root_crate(name);
+            adopt_new_crate(w, ctx, cr, name, pid, 0, w.hist);
+        }
+        catch (const vf::Fail&)
+        {
+            throw;
+        }
+        catch (const std::exception& ex)
+        {
+            VF_CHECK(dup, w.hist << ": create with a fresh name threw: " << ex.what());
+        }
+    };
+    if (d < 2)
+    {
+        if (lc.size() < 4)
+            create(nullptr, names[d]);
+        return;
+    }
+    d -= 2;
+    if (d < 8)
+    {
+        CrateM* p = at(d / 2);
+        if (p && lc.size() < 4)
+            create(p, names[d % 2]);
+        return;
+    }
+    d -= 8;
+    if (d < 8)
+    {
+        CrateM* c = at(d / 2);
+        if (!c)
+            return;
+        std::string name = names[d % 2];
+        bool dup = w.sibling_name_exists(c->parent, name, c->id);
+        w.hist += " | rename(" + std::to_string(c->id) + "," + name + ")";
+        try
+        {
+            c->handle.set_name(name);
+            c->name = name;
+            if (!w.subtree(c->id).empty())
+                w.structural_on_nonleaf = true;
+        }
+        catch (const std::exception& ex)
+        {
+            VF_CHECK(dup, w.hist << ": rename threw: " << ex.what());
+        }
+        return;
+    }
+    d -= 8;
+    if (d < 20)
+    {
+        CrateM* c = at(d / 5);
+        if (!c)
+            return;
+        int ti = d % 5;
+        CrateM* t = ti == 4 ? nullptr : at(ti);
+        if (ti != 4 && !t)
+            return;
+        int64_t tid = t ? t->id : 0;
+        auto st = w.subtree(c->id);
+        w.hist += " | move(" + std::to_string(c->id) + "->" + std::to_string(tid) + ")";
+        if (t && (t->id == c->id || st.count(t->id)))
+        {
+            w.cycle_attempt = true;
+            bool threw = false;
+            try
+            {
+                c->handle.set_parent(t->handle);
+            }
+            catch (const std::exception&)
+            {
+                threw = true;
+            }
+            VF_CHECK(threw, w.hist << ": a re-parenting that creates a cycle was accepted");
+            return;
+        }
+        bool dup = w.sibling_name_exists(tid, c->name, c->id);
+        try
+        {
+            if (t)
+                c->handle.set_parent(t->handle);
+            else
+                c->handle.set_parent(std::nullopt);
+            if (!st.empty())
+                w.structural_on_nonleaf = true;
+            if (tid != c->parent)
+            {
+                erase_from(w.order[c->parent], c->id);
+                c->parent = tid;
+                w.order[tid].push_back(c->id);
+            }
+            w.max_depth = std::max(w.max_depth, w.depth_of(c->id) + (st.empty() ? 0 : 1));
+        }
+        catch (const std::exception& ex)
+        {
+            VF_CHECK(dup, w.hist << ": a legal re-parenting threw: " << ex.what());
+        }
+        return;
+    }
+    d -= 20;
+    CrateM* c = at(d);
+    if (!c)
+        return;
+    int64_t id = c->id;
+    if (!w.subtree(id).empty())
+        w.structural_on_nonleaf = true;
+    w.hist += " | remove(" + std::to_string(id) + ")";
+    dj::crate h = c->handle;
+    w.db.remove_crate(h);
+    VF_CHECK(!w.db.crate_by_id(id), w.hist << ": crate_by_id still finds the removed crate");
+    adopt_removal(w, id, w.hist);
+}
+template <int L>
+uint64_t c07_enum_total()
+{
+    uint64_t n = 3;
+    for (int i = 0; i < L; ++i)
+        n *= C07_ALPHABET;
+    return n;
+}
+template <int L>
+void prop_c07_enum(const vf::Case& c, Ctx& ctx)
+{
+    uint64_t i = c[0].empty() ? 0 : c[0][0];
+    static const e::engine_schema reps[3] = {e::engine_schema::schema_1_6_0, e::engine_schema::schema_1_18_0_os, e::engine_schema::schema_2_21_2};
+    auto schema = reps[i % 3];
+    i /= 3;
+    ctx.label("schema=" + sname(schema));
+    World w(schema, e::create_temporary_database(schema));
+    w.hist = "schema " + sname(schema);
+    for (int k = 0; k < L; ++k)
+    {
+        int d = static_cast<int>(i % C07_ALPHABET);
+        i /= C07_ALPHABET;
+        size_t before = w.hist.size();
+        apply_enum_op(w, ctx, d);
+        if (w.hist.size() != before)
+            check_forest(w, w.hist);
+    }
+    ctx.describe = w.hist;
+    ctx.key = w.hist;
+    ctx.nontrivial = (w.max_depth >= 2 && w.structural_on_nonleaf) || w.cycle_attempt;
+}
+
 // ------------------------------------------------------------------------------------------------------ C08
 inline void prop_c08(const vf::Case& c, Ctx& ctx)
 {
